@@ -8,6 +8,11 @@
 (*                                       in the state described by the last Env line           *)
 (*   CScrape{obs}                        a scrape taken while measurements were being recorded *)
 (*                                       (Env = the final state)                               *)
+(* Env and Scrape lines may carry faults = the armed faults of the collection (PromModel,      *)
+(* "the collection behind a scrape") and Env ck = the outcome kind the harness saw when it     *)
+(* asked the same reader for the SDK's view: it must be the kind the model derives from the    *)
+(* faults (otherwise the line is not consumed: drift, never a verdict).  What a scrape must    *)
+(* expose follows from Duty(CollectKind(phase, faults)).                                       *)
 (* The order in which the SDK hands scopes to the exporter is unspecified and      *)
 (* decides which of two conflicting definitions is first: the monitor keeps the    *)
 (* SET of family caches that are consistent with everything observed so far.       *)
@@ -54,6 +59,11 @@ Judge(obs, fast) ==
      ELSE IF OKs(r4) # {} THEN Result(FALSE, OKs(r4), strict)
      ELSE [ok |-> FALSE, caches |-> {r.cache : r \in r0}, v |-> strict, dev |-> {"none"}]
 
+FaultsOf(r) == IF "faults" \in DOMAIN r THEN Range(r.faults) ELSE {}
+KindOf(r) == CollectKind(r.phase, FaultsOf(r))
+(* named in every report: which class of collection the scrape was taken behind *)
+CollectOf(r) == [kind |-> KindOf(r), faults |-> IF "faults" \in DOMAIN r THEN r.faults ELSE <<>>]
+
 Init == l = 1 /\ env = NoEnv /\ streams = <<>> /\ caches = {{}} /\ nbad = 0
 
 TNew == /\ l <= Len(Trace) /\ Trace[l].ev = "New"
@@ -62,27 +72,30 @@ TNew == /\ l <= Len(Trace) /\ Trace[l].ev = "New"
         /\ streams' = <<>> /\ caches' = {{}} /\ l' = l + 1 /\ UNCHANGED nbad
 
 TEnv == /\ l <= Len(Trace) /\ Trace[l].ev = "Env"
+        /\ ("ck" \in DOMAIN Trace[l]) => (FaultsOf(Trace[l]) \subseteq Faults /\ Trace[l].ck = CollectKind("reg", FaultsOf(Trace[l])))
         /\ env' = [env EXCEPT !.insts = Trace[l].insts]
         /\ streams' = Trace[l].streams /\ l' = l + 1 /\ UNCHANGED <<caches, nbad>>
 
 (* scrape before registration / after shutdown (PromModel, exporter lifecycle) *)
-TLifeScrape == /\ l <= Len(Trace) /\ Trace[l].ev = "Scrape" /\ Trace[l].phase # "reg"
+TLifeScrape == /\ l <= Len(Trace) /\ Trace[l].ev = "Scrape" /\ Duty(KindOf(Trace[l])) # "data"
                /\ LET obs == Trace[l].obs
                       empty == EmptyVerdict(obs)
                       last == Judge(obs, FALSE)      \* the exposition of the last state
-                      v == IF Trace[l].phase = "unreg" \/ empty.why = "ok" \/ Unconditional(obs).why # "ok" THEN empty
+                      v == IF Duty(KindOf(Trace[l])) = "nothing" \/ empty.why = "ok" \/ Unconditional(obs).why # "ok" THEN empty
                            ELSE IF last.ok THEN [why |-> "ok", fam |-> {}] ELSE last.v IN
                   (v.why # "ok") => Viol([line |-> l, sc |-> Trace[l].sc, via |-> Trace[l].via, why |-> v.why, fam |-> v.fam,
-                                          devs |-> {"none"}, phase |-> Trace[l].phase, panic |-> obs.panic, gerr |-> obs.gerr])
+                                          devs |-> {"none"}, phase |-> Trace[l].phase, panic |-> obs.panic, gerr |-> obs.gerr,
+                                          collect |-> CollectOf(Trace[l])])
                /\ l' = l + 1 /\ UNCHANGED <<env, streams, caches, nbad>>
 
-TScrape == /\ l <= Len(Trace) /\ Trace[l].ev = "Scrape" /\ Trace[l].phase = "reg"
+(* behind an ok or a PARTIAL collection: the exposition of everything the reader produced (the last Env line) *)
+TScrape == /\ l <= Len(Trace) /\ Trace[l].ev = "Scrape" /\ Duty(KindOf(Trace[l])) = "data"
            /\ LET obs == Trace[l].obs
                   j == Judge(obs, nbad >= MaxSearch) IN
               /\ caches' = j.caches
               /\ nbad' = IF j.dev = {"none"} THEN nbad + 1 ELSE nbad
               /\ (~j.ok) => Viol([line |-> l, sc |-> Trace[l].sc, via |-> Trace[l].via, why |-> j.v.why, fam |-> j.v.fam,
-                                  devs |-> j.dev, panic |-> obs.panic, gerr |-> obs.gerr])
+                                  devs |-> j.dev, panic |-> obs.panic, gerr |-> obs.gerr, collect |-> CollectOf(Trace[l])])
            /\ l' = l + 1 /\ UNCHANGED <<env, streams>>
 
 TCScrape == /\ l <= Len(Trace) /\ Trace[l].ev = "CScrape"
